@@ -809,11 +809,11 @@ impl Family for FactorFamily {
         match (prop, tier) {
             ("C04", Tier::Quick) => 2000,
             ("C04", Tier::Thorough) => 12000,
-            ("C01", Tier::Quick) => 320,
+            ("C01", Tier::Quick) => 480,
             ("C01", Tier::Thorough) => 4000,
-            ("C02", Tier::Quick) => 320,
-            ("C02", Tier::Thorough) => 4000,
-            ("C05", Tier::Quick) => 240,
+            ("C02", Tier::Quick) => 3000,
+            ("C02", Tier::Thorough) => 24000,
+            ("C05", Tier::Quick) => 400,
             ("C05", Tier::Thorough) => 3000,
             _ => 100,
         }
